@@ -11,7 +11,7 @@ Lemma transaction_not_committed_noop k ab acts m :
 Proof.
   unfold transaction. destruct (body k m empty_tx _) as [t|[| |]]; cbn; try reflexivity.
   destruct ab; cbn; [reflexivity|].
-  destruct (Z.eqb k 6); [destruct (subtree_conflict m t)|]; cbn; try reflexivity;
+  destruct (Z.eqb k 6); [destruct (subtree_conflict m t || orphan_create m t)|]; cbn; try reflexivity;
     intros H; contradiction H; reflexivity.
 Qed.
 
@@ -20,7 +20,7 @@ Lemma transaction_code_range k ab acts m :
 Proof.
   unfold transaction. destruct (body k m empty_tx _) as [t|[| |]]; cbn; try lia.
   destruct ab; cbn; [lia|].
-  destruct (Z.eqb k 6); [destruct (subtree_conflict m t)|]; cbn; lia.
+  destruct (Z.eqb k 6); [destruct (subtree_conflict m t || orphan_create m t)|]; cbn; lia.
 Qed.
 
 Lemma put_state_ver m h s : ver (put_state m h s) = ver m.
@@ -110,7 +110,7 @@ Proof.
   cbv zeta. split; [apply transaction_not_committed_noop|].
   unfold transaction. destruct (body k m empty_tx _) as [t|[| |]]; cbn; try discriminate.
   destruct ab; cbn; [discriminate|].
-  destruct (Z.eqb k 6); [destruct (subtree_conflict m t)|]; cbn; try discriminate; intros _.
+  destruct (Z.eqb k 6); [destruct (subtree_conflict m t || orphan_create m t)|]; cbn; try discriminate; intros _.
   - rewrite commit_descr_ver. destruct (t_d t) eqn:E; [right; now apply commit_descr_empty|now left].
   - rewrite commit_states_ver. destruct (t_s t) eqn:E1, (t_c t) eqn:E2; try (now left).
     right. now apply commit_states_empty.
